@@ -4,6 +4,8 @@ package c16
 
 import (
 	"fmt"
+	"math/big"
+	"os"
 	"sort"
 	"strings"
 	"time"
@@ -128,12 +130,15 @@ func runEq(ctx *common.Ctx, g *gen, n int) {
 		w := words{}
 		rterms := make([]string, len(refs))
 		shows := make([]string, len(refs))
+		kindsOf := make([]string, len(refs))
 		for i, r := range refs {
+			kindsOf[i] = r.n.kindName()
 			rterms[i] = refTerm(r, w)
 			shows[i] = fmt.Sprintf("%s@%d", r.n.show(), w.id(r.o))
 			ctx.Hist("eq-kind:" + r.n.kindName())
 		}
 		rows := make([]string, len(refs))
+		var mat [3][3][4]int
 		graded := false
 		obsDesc := []string{}
 		for i, a := range refs {
@@ -143,6 +148,7 @@ func runEq(ctx *common.Ctx, g *gen, n int) {
 				for p, fn := range []string{"eq", "eql", "equal", "equalp"} {
 					codes[p] = predCode(call(s, fn, a.o, b.o))
 				}
+				mat[i][j] = codes
 				cells[j] = fmt.Sprintf("(%d, %d, %d, %d)%%N", codes[0], codes[1], codes[2], codes[3])
 				if i != j && codes[3] == 1 && codes[0] == 0 {
 					graded = true
@@ -162,6 +168,7 @@ func runEq(ctx *common.Ctx, g *gen, n int) {
 			hashes[i] = common.GZ(h)
 			hdesc[i] = fmt.Sprint(h)
 		}
+		noteLaws(ctx, shows, kindsOf, mat, hdesc)
 		term := fmt.Sprintf("mk_eq_case [%s] [%s] [%s]", strings.Join(rterms, "; "), strings.Join(rows, "; "), strings.Join(hashes, "; "))
 		if !seen[term] {
 			seen[term] = true
@@ -184,7 +191,57 @@ func runEq(ctx *common.Ctx, g *gen, n int) {
 	ctx.Meta.DistinctNontrivial += nontrivial
 }
 
+// designed triples: the shapes on which the laws are known to be at risk
+func (g *gen) designed() []*node {
+	third := nRat(big.NewInt(1), big.NewInt(3))
+	ts := [][]*node{
+		{nFix(9007199254740993), nF64(9007199254740992), nFix(9007199254740992)},
+		{nFix(16777217), nF32(16777216), nFix(16777216)},
+		{nFix(16777217), nF32(16777216), nF64(16777217)},
+		{nBig(add(p63, 1)), nF64(9.223372036854775808e18), nBig(p63)},
+		{nBig(add(e20, 1)), nF64(1e20), nBig(e20)},
+		{third, nF32(float32(1.0) / 3), nF64(1.0 / 3)},
+		{third, nF64(1.0 / 3), nRat(big.NewInt(6004799503160661), new(big.Int).Lsh(big.NewInt(1), 54))},
+		{nBig(p79), nRat(add(p80, 3), big.NewInt(2)), nBig(add(p79, 2))},
+		{nBig(p79), nRat(add(p80, 3), big.NewInt(2)), nF64(6.044629098073146e23)},
+		{nBig(p64), nRat(add(new(big.Int).Lsh(p64, 1), 1), big.NewInt(2)), nBig(add(p64, 1))},
+		{nBig(pow2(100)), nRat(add(pow2(103), 9), big.NewInt(8)), nBig(add(pow2(100), 1))},
+		{nStr("k"), nStr("K"), nStr("\u212a")},
+		{nStr("s"), nStr("S"), nStr("\u017f")},
+		{nChr('k'), nChr('K'), nChr(0x212A)},
+		{nChr('s'), nChr('S'), nChr(0x17F)},
+		{nSym("k"), nSym("K"), nSym("\u212a")},
+		{nStr("abc"), nStr("ABC"), nSym("abc")},
+		{nFix(1000000), nF64(1000000), nF32(1000000)},
+		{nFix(5), nF64(5), nBig(big.NewInt(5))},
+		{nLst(), {k: kNil}, nVec()},
+		{nLst(nFix(1), nTl(nFix(2))), nLst(nFix(1), nFix(2)), nLst(nFix(1), nTl(nF64(2)))},
+		{nLst(nFix(1), nTl(nChr('a'))), nLst(nFix(1), nTl(nChr('A'))), nLst(nFix(1), nChr('a'))},
+		{nVec(nFix(16777217)), nVec(nF32(16777216)), nVec(nFix(16777216))},
+		{nVec(nStr("a")), nVec(nStr("A")), nLst(nStr("a"))},
+		{nVec(nSym("a")), nVec(nSym("A")), nLst(nSym("A"))},
+	}
+	t := common.Pick(g.rng, ts)
+	out := make([]*node, 3)
+	perm := [][]int{{0, 1, 2}, {0, 2, 1}, {1, 0, 2}, {1, 2, 0}, {2, 0, 1}, {2, 1, 0}}[g.rng.Intn(6)]
+	for i, p := range perm {
+		out[i] = t[p]
+		if g.rng.Chance(15) { // wrapped in a list or a vector: the laws must survive nesting
+			if g.rng.Bool() {
+				out[i] = nLst(nSym("w"), t[p])
+			} else {
+				out[i] = nVec(t[p])
+			}
+		}
+	}
+	return out
+}
+
 func (g *gen) refTriple() []aref {
+	if g.rng.Chance(18) {
+		ns := g.designed()
+		return []aref{mkref(ns[0]), mkref(ns[1]), mkref(ns[2])}
+	}
 	refs := make([]aref, 0, 3)
 	for i := 0; i < 3; i++ {
 		if i > 0 && g.rng.Chance(60) {
@@ -441,4 +498,43 @@ func sameGoKey(a, b slip.Object) (eq bool) {
 		}
 	}()
 	return a == b
+}
+
+var predNames = []string{"eq", "eql", "equal", "equalp"}
+
+// noteLaws records (histogram, and a few examples in the notes) where the observed matrix breaks a law,
+// guard or no guard: this is what the known findings are drawn from.
+func noteLaws(ctx *common.Ctx, shows, kindsOf []string, m [3][3][4]int, hs []string) {
+	note := func(key, msg string) {
+		ctx.Hist(key)
+		if ctx.Meta.Histogram[key] <= 3 && os.Getenv("VERIF_C16_NOTES") != "" {
+			ctx.Meta.Notes = append(ctx.Meta.Notes, key+": "+msg)
+		}
+	}
+	for i := 0; i < 3; i++ {
+		for j := 0; j < 3; j++ {
+			for p := 0; p < 4; p++ {
+				if m[i][j][p] == 2 {
+					note("law:"+predNames[p]+"-not-total", fmt.Sprintf("%s %s", shows[i], shows[j]))
+				}
+				if m[i][j][p] == 1 && m[j][i][p] != 1 {
+					note("law:"+predNames[p]+"-not-symmetric", fmt.Sprintf("%s %s", shows[i], shows[j]))
+				}
+				if p < 3 && m[i][j][p] == 1 && m[i][j][p+1] != 1 {
+					note("law:"+predNames[p]+"-does-not-imply-"+predNames[p+1], fmt.Sprintf("%s %s", shows[i], shows[j]))
+				}
+				for k := 0; k < 3; k++ {
+					if m[i][j][p] == 1 && m[j][k][p] == 1 && m[i][k][p] != 1 {
+						note("law:"+predNames[p]+"-not-transitive", fmt.Sprintf("%s %s %s", shows[i], shows[j], shows[k]))
+					}
+				}
+			}
+			if m[i][j][2] == 1 && hs[i] != hs[j] {
+				note("law:equal-but-sxhash-differs:"+kindsOf[i]+"/"+kindsOf[j], fmt.Sprintf("%s %s: %s %s", shows[i], shows[j], hs[i], hs[j]))
+			}
+		}
+		if m[i][i] != [4]int{1, 1, 1, 1} {
+			note("law:not-reflexive", shows[i])
+		}
+	}
 }
